@@ -30,6 +30,7 @@ class Prop:
     shrink_s = {"quick": 20.0, "thorough": 40.0}
     chunk = 100           # runs per worker job
     chunk_wall = 600      # wall backstop per job (faulthandler kills the worker)
+    fp_mode = "final"     # or "history": see run_events
     run_wall = 60         # wall backstop per run (raises a harness error, never a violation)
 
     # ---- per-run configuration (JSON-able; stored in replay files) -------------
@@ -136,7 +137,11 @@ def run_events(prop, w, cfg, streams, trace=None):
             break
         fp, nobj = fingerprint(w.roots())
         hasher.update(("%d|%s|%s|%x|%d\n" % (ev["i"], ev["op"], outcome, fp, nobj)).encode())
-        res.final_fp = fp
+        if prop.fp_mode == "history":
+            # properties that let intermediate results go: the "final state" is the sequence of states passed
+            res.final_fp = derive(res.final_fp, fp, nobj)
+        else:
+            res.final_fp = fp
         if track_states:
             res.states.add(fp)
     if res.violation is None:
